@@ -26,7 +26,7 @@ for pid in ALL:
         property_id=pid, quick_cmd="./check %s --tier quick" % pid, thorough_cmd="./check %s --tier thorough" % pid,
         evidence_file="evidence/%s.json" % pid, replay_cmd_template="./check replay {path}", engine=sp.get("engine", "sx"),
         level_claimed=dict(category=sp.get("level", "model_checking"), text=sp["explanation"], design_ref="DESIGN.md §8 " + pid),
-        level_note=sp.get("level_note") or NOTE % json.dumps(b), technique=sp.get("technique", TECH["default"])))
+        level_note=sp.get("level_note") or NOTE % json.dumps(b)[:900], technique=sp.get("technique", TECH["default"])))
 m = dict(version=1, setup_cmd="./setup.sh",
          hooks=dict(guard="WORMHOLE_MAILBOX_VERIF",
                     enable="no source hooks: every stub is injected from outside (module attributes), DESIGN.md §3.3",
